@@ -39,8 +39,39 @@ def vmap(f, *sets):
     return frozenset(out)
 
 
-class RefSource:
+def _rel(t, ctx):
+    """time relative to the normalisation origin (None: absolute); older than the cut -> 'old'"""
+    if ctx is None or t is None:
+        return t
+    r = t - ctx["origin_h"]
+    return "old" if r < -ctx["cut_h"] else r
+
+
+class Canon:
+    """canonical state: attributes in TIMES are times, in SERIES lists of (time, value); everything else verbatim"""
+
+    TIMES = ()
+    SERIES = ()
+    TLISTS = ()
+
+    def __canon__(self, ctx):
+        d = {}
+        for k, v in sorted(self.__dict__.items()):
+            if k in self.TIMES:
+                d[k] = _rel(v, ctx)
+            elif k in self.SERIES:
+                d[k] = [(_rel(t, ctx), x) for t, x in v]
+            elif k in self.TLISTS:
+                d[k] = [_rel(t, ctx) for t in v]
+            else:
+                d[k] = v
+        return d
+
+
+class RefSource(Canon):
     """publication history of a push output; served by nearest publication time"""
+
+    SERIES = ("hist",)
 
     def __init__(self):
         self.hist = []
@@ -88,8 +119,11 @@ class RefFunc:
         return self.func(t)
 
 
-class RAdapter:
+class RAdapter(Canon):
     buffering = False
+    TIMES = ("init", "last", "prev")
+    SERIES = ("buf",)
+    TLISTS = ("pulls",)
 
     def __init__(self):
         self.src = None
@@ -356,6 +390,8 @@ def make_ref(tok, init):
     k = tok[0]
     if k == "S":
         return RScale(tok[1])
+    if k == "R":
+        return RScale(1)
     if k == "L":
         return RLinear()
     if k == "N":
